@@ -110,6 +110,10 @@ pub struct MiniCase {
     script: Vec<Option<i64>>,
     ops: Vec<Op>,
     cuts: Vec<CutSel>,
+    /// The write task's start-up lookup of the lane's store id (the 2nd `id_for("v0")`; the init task's
+    /// succeeded a moment earlier) fails once with `KeyNotFound`.
+    #[serde(default)]
+    id_fault: bool,
 }
 
 pub fn arb_mini(max_ops: usize) -> impl Strategy<Value = MiniCase> {
@@ -125,12 +129,13 @@ pub fn arb_mini(max_ops: usize) -> impl Strategy<Value = MiniCase> {
         proptest::collection::vec(prop_oneof![1 => Just(None), 2 => (1i64..4).prop_map(Some)], 0..24),
         proptest::collection::vec(op, 3..max_ops),
         proptest::collection::vec(crate::arb_cutsel(), 3..=3),
+        prop_oneof![7 => Just(false), 1 => Just(true)],
     )
-        .prop_map(|(params, script, ops, cuts)| {
+        .prop_map(|(params, script, ops, cuts, id_fault)| {
             let mut all = vec![Op::Attach { in_cap: 4096, out_cap: 32 }, Op::Link { r: 0, lane: 0 }];
             all.extend(ops);
             all.push(Op::Settle);
-            MiniCase { params, script, ops: all, cuts }
+            MiniCase { params, script, ops: all, cuts, id_fault }
         })
 }
 
@@ -155,6 +160,9 @@ fn execute(case: &MiniCase, cut: Cut) -> MiniObs {
         let clock = Arc::new(AtomicU64::new(1));
         let data: SharedData = SharedData::default();
         let shared = MShared::new(clock.clone(), case.script.clone());
+        if case.id_fault {
+            data.lock().id_fault = Some(("v0".to_string(), 2));
+        }
         let agent = make_mini(shared.clone());
         let mut sim = Sim::start_with_store(&agent, &case.params, clock.clone(), None, RecStore::new(data.clone(), clock.clone(), 1));
         sim.run_until_idle();
@@ -191,6 +199,7 @@ fn execute(case: &MiniCase, cut: Cut) -> MiniObs {
         let log_end1 = {
             let mut g = data.lock();
             g.fault = None;
+            g.id_fault = None;
             g.log.len()
         };
         tokio::task::yield_now().await;
@@ -262,8 +271,16 @@ fn judge(obs: &MiniObs, v: &mut Verdict) -> (bool, Vec<&'static str>) {
         }
         eprintln!("frames {:?}", obs.remotes1);
     }
+    let id_fault_fired = obs.log.iter().any(|e| matches!(e.call, Call::IdFor(_)) && !e.applied);
+    if id_fault_fired {
+        classes.push(if obs.result1.is_some() {
+            "id-lookup-failed-at-write-task-start:runtime-stopped"
+        } else {
+            "id-lookup-failed-at-write-task-start:runtime-went-on"
+        });
+    }
     if let Some(Err(e)) = &obs.result1 {
-        if !(matches!(obs.cut, Cut::StoreError(_)) && obs.fired) {
+        if !(matches!(obs.cut, Cut::StoreError(_)) && obs.fired) && !id_fault_fired {
             v.fail("twin:agent-failed", format!("{} the agent task ended with an error: {}", ctx, e));
         }
     }
